@@ -15,9 +15,9 @@
 #include "uat_ops.h"
 
 #define IMPLS(X) X(asm_c) X(asm_cxx) X(bi_c) X(bi_cxx) X(gasm_c) X(gasm_cxx) X(gbi_c) X(gbi_cxx)
-#define DECL(n) extern "C" int n##_apply(int type, int op, int typed, void *addr, uint64_t a, uint64_t b, uint64_t *ret);
+#define DECL(n) extern "C" int n##_apply(int type, int op, int typed, void *addr, uint64_t a, uint64_t b, uint64_t *ret, int pre, uint64_t init);
 IMPLS(DECL)
-typedef int (*apply_fn)(int, int, int, void *, uint64_t, uint64_t, uint64_t *);
+typedef int (*apply_fn)(int, int, int, void *, uint64_t, uint64_t, uint64_t *, int, uint64_t);
 #define ENT(n) { #n, n##_apply },
 static const struct { const char *name; apply_fn fn; } impls[] = { IMPLS(ENT) };
 static const int NIMPL = sizeof impls / sizeof impls[0];
@@ -82,7 +82,7 @@ static uint64_t pool_at(int k, int w)
 	return v[k];
 }
 static unsigned long grid_cases;
-static void check_case(int type, int op, int off, int typed, uint64_t oldv, uint64_t a, uint64_t b, const unsigned char *guard)
+static void check_case(int type, int op, int off, int typed, uint64_t oldv, uint64_t a, uint64_t b, const unsigned char *guard, int pre)
 {
 	int w = widths[type];
 	alignas(8) unsigned char image[24];
@@ -90,8 +90,8 @@ static void check_case(int type, int op, int off, int typed, uint64_t oldv, uint
 	uint64_t om = oldv & mask_of(w);
 	memcpy(image + 8 + off, &om, w);
 	char tb[400];
-	snprintf(tb, sizeof tb, "%s on %s at byte %d of the word, old value 0x%llx, operand a=0x%llx b=0x%llx, operands passed %s", onames[op], tnames[type], off,
-		(unsigned long long)om, (unsigned long long)a, (unsigned long long)b, typed ? "with the operand type" : "as (unsigned) long");
+	snprintf(tb, sizeof tb, "%s on %s at byte %d of the word, old value 0x%llx, operand a=0x%llx b=0x%llx, operands passed %s%s", onames[op], tnames[type], off,
+		(unsigned long long)om, (unsigned long long)a, (unsigned long long)b, typed ? "with the operand type" : "as (unsigned) long", pre ? ", old value written by a plain C assignment immediately before the call" : "");
 	trace = tb;
 	if (!grid_cases) n_cases++;
 
@@ -116,8 +116,9 @@ static void check_case(int type, int op, int off, int typed, uint64_t oldv, uint
 
 	for (int i = 0; i < NIMPL; i++) {
 		alignas(8) unsigned char img[24]; memcpy(img, image, 24);
+		if (pre) memset(img + 8 + off, 0x3c, w);	/* the assignment inside the instantiation must provide the old value */
 		uint64_t ret = 0xabababababababab;
-		int hr = impls[i].fn(type, op, typed, img + 8 + off, a, b, &ret);
+		int hr = impls[i].fn(type, op, typed, img + 8 + off, a, b, &ret, pre, oldv);
 		if (hr != has_ret) fail("[%s] internal: return-value presence mismatch", impls[i].name);
 		if (has_ret && ret != expret)
 			fail("[%s] %s returned 0x%llx, the documented sequential semantics give 0x%llx (as %s converted to 64 bits)", impls[i].name, onames[op], (unsigned long long)ret, (unsigned long long)expret, tnames[type]);
@@ -145,14 +146,14 @@ static void check_case(int type, int op, int off, int typed, uint64_t oldv, uint
 		if (samples.size() < 3 && n_hits % 101 == 1) samples.push_back(trace);
 	}
 }
-// exhaustive enumeration of the boundary grid: every type x operation x aligned position x passing style x (old, a, b) in the 14-value boundary pool
+// exhaustive enumeration of the boundary grid: every type x operation x aligned position x passing style x old-value-written-by-plain-assignment {no, yes} x (old, a, b) in the 14-value boundary pool
 static void grid()
 {
 	unsigned char guard[24]; for (int i = 0; i < 24; i++) guard[i] = 0xa5 ^ (i * 17);
 	grid_cases = 1;
-	for (int type = 0; type < UT_N; type++) for (int op = 0; op < UOP_N; op++) for (int off = 0; off < 8; off += widths[type]) for (int typed = 0; typed < 2; typed++)
+	for (int type = 0; type < UT_N; type++) for (int op = 0; op < UOP_N; op++) for (int off = 0; off < 8; off += widths[type]) for (int typed = 0; typed < 2; typed++) for (int pre = 0; pre < 2; pre++)
 		for (int i = 0; i < 14; i++) for (int j = 0; j < 14; j++) for (int k = 0; k < 14; k++) {
-			check_case(type, op, off, typed, pool_at(i, widths[type]), pool_at(j, widths[type]), pool_at(k, widths[type]), guard);
+			check_case(type, op, off, typed, pool_at(i, widths[type]), pool_at(j, widths[type]), pool_at(k, widths[type]), guard, pre);
 			grid_cases++;
 		}
 	const char *dir = getenv("VERIF_FUZZ_STATS");
@@ -171,6 +172,7 @@ extern "C" int LLVMFuzzerTestOneInput(const uint8_t *data, size_t size)
 	if (op == UOP_CMPXCHG && fdp.ConsumeBool()) a = oldv;	// make the comparison succeed half of the time
 	unsigned char guard[24];
 	for (int i = 0; i < 24; i++) guard[i] = fdp.ConsumeIntegral<uint8_t>() | 1;	// guards: nonzero pattern
-	check_case(type, op, off, typed, oldv, a, b, guard);
+	int pre = fdp.ConsumeBool();
+	check_case(type, op, off, typed, oldv, a, b, guard, pre);
 	return 0;
 }
